@@ -131,12 +131,12 @@ def filter_ops(t):
 
 
 ITEM_KINDS = ["lit", "string", "cstr", "int", "double", "char", "call_s", "call_c", "call_obj", "failbit",
-              "chararr", "call_mut", "hex", "dec", "w6"]
+              "chararr", "call_mut", "hex", "dec", "w6", "showpos", "big", "call_boolfalse", "call_throw"]
 
 
 def gen_item(rng, uid, callable_bias):
     w = [3, 2, 2, 2, 1, 1] + [callable_bias, callable_bias * 0.6, callable_bias * 0.6] + [0.25] + \
-        [0.8, callable_bias * 0.3] + [0.5, 0.2, 0.5]
+        [0.8, callable_bias * 0.3] + [0.5, 0.2, 0.5] + [0.4, 0.12, callable_bias * 0.25, callable_bias * 0.25]
     kind = rng.choices(ITEM_KINDS, weights=w)[0]
     if kind in ("lit", "string", "cstr", "chararr"):
         text = rng.choice(["a", "msg", "x y", "", "{}", "[t]", "0", "T|F", "end."]) + str(uid % 7)
@@ -147,7 +147,10 @@ def gen_item(rng, uid, callable_bias):
         return {"kind": kind, "text": rng.choice(["0.5", "2.5", "-1.25", "100", "1e+06"])}
     if kind == "char":
         return {"kind": kind, "text": rng.choice("cZ#1")}
-    if kind in ("hex", "dec", "w6"):
+    if kind == "big":
+        # a text of more than 64 KiB
+        return {"kind": kind, "text": "", "n": rng.choice([65535, 65536, 70000])}
+    if kind in ("hex", "dec", "w6", "showpos"):
         # stream manipulators: state that later items of the same statement are formatted with
         return {"kind": kind, "text": ""}
     if kind == "failbit":
@@ -169,7 +172,7 @@ def gen_program(seed, prop):
     if rng.random() < 0.06:
         p["filter"] = ("budget", rng.choice([1, 2, 3, 5]))
         p["leaves"] = 0
-    p["nsinks"] = rng.choice([0, 1, 2, 3, 4])  # 0 = a plain sink, not a sequence
+    p["nsinks"] = rng.choice([0, 1, 2, 3, 4, 0, 1, 2, 3, 4, 5, 6, 7, 9, 11])  # 0 = a plain sink, not a sequence
     p["nested"] = p["nsinks"] >= 3 and rng.random() < 0.4  # sequence<S0, sequence<S1>, S2...>
     # one sink member reports every record it receives with a log statement of its own (an audit
     # trail), issued from inside sink() before it stores the record
@@ -207,11 +210,28 @@ def gen_program(seed, prop):
         # reference: auto&& log = L::info() << first; log << second;
         if s["named"] and s["items"] and rng.random() < 0.3:
             s["bindchain"] = True
+        # a throwing callable needs a statement that can go on afterwards: the named form, not in the declaration
+        for pos, it in enumerate(s["items"]):
+            if it["kind"] == "call_throw" and (not s["named"] or (s.get("bindchain") and pos == 0)):
+                it["kind"] = "call_s"
+        if s.get("inner"):
+            for it in s["inner"]["stmt"]["items"]:
+                if it["kind"] == "call_throw":
+                    it["kind"] = "call_s"  # the statement inside is a one-expression statement
         # the runtime thresholds change while a named stream object is open: the statement was
         # accepted or rejected when it began
         if s["named"] and "inner" not in s and rng.random() < 0.2:
             s["bump"] = True
         stmts.append(s)
+    # at most one text of more than 64 KiB per program, and only where the threshold space is small
+    seen_big = st["leaves"] > 1
+    for s in stmts:
+        for it in s["items"] + (s["inner"]["stmt"]["items"] if s.get("inner") else []):
+            if it["kind"] == "big":
+                if seen_big:
+                    it["kind"] = "lit"
+                    it["text"] = "B"
+                seen_big = True
     p["stmts"] = stmts
     return p
 
@@ -239,6 +259,10 @@ def item_cpp(it, k, j):
         return f"    char v{j} = '{it['text']}';\n", f"v{j}"
     if kind == "failbit":
         return f"    std::streambuf* v{j} = nullptr;\n", f"v{j}"
+    if kind == "showpos":
+        return "", "std::showpos"
+    if kind == "big":
+        return f"    std::string v{j}({it['n']}, 'B');\n", f"v{j}"
     if kind == "hex":
         return "", "std::hex"
     if kind == "dec":
@@ -249,6 +273,13 @@ def item_cpp(it, k, j):
         # a buffer that merely holds a C string shorter than itself
         return f"    char v{j}[16] = {cstr(it['text'])};\n", f"v{j}"
     cid = it["cid"]
+    if kind == "call_throw":
+        # a callable that throws (the statement goes on: the exception is caught around the insertion)
+        return "", f'[]() -> std::string {{ ev("C{cid}"); throw 7; }}'
+    if kind == "call_boolfalse":
+        # a function object that also converts to bool - and says false (e.g. "not computed yet")
+        return (f"    struct Fb{j} {{ explicit operator bool() const {{ return false; }} std::string operator()() const "
+                f"{{ ev(\"C{cid}\"); return {cstr(it['text'])}; }} }} fb{j};\n", f"fb{j}")
     if kind == "call_mut":
         return (f"    struct Fm{j} {{ int n = 0; std::string operator()() {{ ++n; ev(\"C{cid}\"); "
                 f"return {cstr(it['text'])}; }} }} fm{j};\n", f"fm{j}")
@@ -272,7 +303,11 @@ def program_cpp(p):
       "#include <nitro/log/filter/severity_filter.hpp>\n#include <nitro/log/log.hpp>\n"
       "#include <nitro/log/sink/sequence.hpp>\n"
       "#include <cstdio>\n#include <cstring>\n#include <iomanip>\n#include <streambuf>\n#include <string>\n#include <type_traits>\n#include <vector>\n")
-    a("static std::vector<std::string> trace;\nstatic void ev(const std::string& s) { trace.push_back(s); }\n")
+    a("static std::vector<std::string> trace;\n"
+      "// long texts are abbreviated in the trace: first 120 characters, length and an FNV-1a hash\n"
+      "static void ev(const std::string& s) { if (s.size() <= 400) { trace.push_back(s); return; } "
+      "unsigned long long h = 1469598103934665603ull; for (unsigned char ch : s) { h ^= ch; h *= 1099511628211ull; } "
+      "trace.push_back(s.substr(0, 120) + \"...(\" + std::to_string(s.size()) + \" bytes, \" + std::to_string(h) + \")\"); }\n")
     a("struct CountingClock { typedef long time_point; static long now() { static long t = 0; return ++t; } };\n")
     attrs = (["nitro::log::tag_attribute"] if p["has_tag"] else []) + \
         ["nitro::log::message_attribute", "nitro::log::severity_attribute",
@@ -371,7 +406,10 @@ def program_cpp(p):
                 a(inner_line)
             for j, e in enumerate(exprs):
                 if not (chain0 and j == 0):
-                    a(f"        log << {e};")
+                    if s["items"][j]["kind"] == "call_throw":
+                        a(f"        try {{ log << {e}; }} catch (int) {{}}")
+                    else:
+                        a(f"        log << {e};")
                 a(f'        ev("M{k}.{j + 1}");')
                 if inner_line and s["inner"]["at"] == j + 1:
                     a(inner_line)
@@ -425,6 +463,7 @@ def message_of(items):
     msg = ""
     hexmode = False
     width = False
+    showpos = False
     for it in items:
         kind = it["kind"]
         if kind == "failbit":
@@ -438,14 +477,35 @@ def message_of(items):
         if kind == "w6":
             width = True  # setfill('0') stays, setw(6) holds for the next item only
             continue
+        if kind == "showpos":
+            showpos = True
+            continue
+        if kind == "call_throw":
+            continue  # called, threw, contributed nothing
         text = render(it)
+        if kind == "big":
+            text = "B" * it["n"]
         if kind == "int" and hexmode:
             text = format(int(it["text"]) & 0xFFFFFFFF, "x")
+        elif kind == "int" and showpos and int(it["text"]) >= 0:
+            text = "+" + text
+        elif kind == "double" and showpos and not text.startswith("-"):
+            text = "+" + text
         if width:
             text = text.rjust(6, "0")
             width = False
         msg += text
     return msg
+
+
+def abbreviate(line):
+    if len(line) <= 400:
+        return line
+    h = 1469598103934665603
+    for ch in line.encode("latin-1"):
+        h ^= ch
+        h = (h * 1099511628211) & 0xFFFFFFFFFFFFFFFF
+    return line[:120] + "...(%d bytes, %d)" % (len(line), h)
 
 
 def expected_events(p, s, k, th, filter_decision=None, inner_decision=None, audit_decision=None):
@@ -474,7 +534,7 @@ def expected_events(p, s, k, th, filter_decision=None, inner_decision=None, audi
     if enabled:
         tag = (s["tag"] or "") if p["has_tag"] else "-"
         f = f"F|{s['sev']}|{tag}|{message_of(s['items'])}"
-        evs.append(f)
+        evs.append(abbreviate(f))
         # the member that keeps an audit trail logs a record of its own before it stores this one
         audit = p.get("audit")
         audit_on = False
@@ -489,7 +549,7 @@ def expected_events(p, s, k, th, filter_decision=None, inner_decision=None, audi
         for q in range(max(1, p["nsinks"])):
             if audit == q and audit_on:
                 evs += audit_evs
-            evs.append(f"S{q}|{s['sev']}|{f}")
+            evs.append(abbreviate(f"S{q}|{s['sev']}|{f}"))
     return enabled, evs
 
 
